@@ -29,6 +29,9 @@ Valid(r) ==
          [] r.mode = "users"    -> ~AbsentI(r.conc) /\ r.conc >= 1
          [] r.mode = "ramp"     -> ~AbsentI(r.start) /\ ~AbsentI(r.end) /\ ~AbsentI(r.dist) /\ r.start # r.end /\ r.dur >= 1000
          [] r.mode = "staged"   -> ~AbsentI(r.stg) /\ ~AbsentI(r.freq) /\ ~AbsentI(r.dist) /\ r.freq > 0
+         \* gaussian: volume, repeat, peak, weights and standard-deviation are always given by the default section in
+         \* the observed configs; the iteration frequency and the distribution may come from either
+         [] r.mode = "gaussian" -> ~AbsentI(r.freq) /\ ~AbsentI(r.dist) /\ r.freq > 0
          [] OTHER -> FALSE
 
 \* what can be observed of a kept stage
@@ -36,6 +39,7 @@ View(r) == CASE r.mode = "constant" -> [mode |-> "constant", dur |-> r.dur, a |-
              [] r.mode = "users"    -> [mode |-> "users", dur |-> r.dur, a |-> r.conc, b |-> 0, ptag |-> r.ptag]
              [] r.mode = "ramp"     -> [mode |-> "ramp", dur |-> r.dur, a |-> r.start, b |-> r.end, ptag |-> r.ptag]
              [] r.mode = "staged"   -> [mode |-> "staged", dur |-> r.dur, a |-> r.stg, b |-> r.freq, ptag |-> r.ptag]
+             [] r.mode = "gaussian" -> [mode |-> "gaussian", dur |-> r.dur, a |-> 0, b |-> r.freq, ptag |-> r.ptag]
              [] OTHER -> [mode |-> "?", dur |-> 0, a |-> 0, b |-> 0, ptag |-> ""]
 
 RECURSIVE CumDur(_, _)
